@@ -20,7 +20,8 @@ Record sinv (s : sel) : Prop := {
 Definition recs (s s' : sel) (fr fw : Z -> bool -> bool) : Prop :=
   s_open s' = s_open s
   /\ (forall x, zmem x (s_rrec s') = fr x (zmem x (s_rrec s)))
-  /\ (forall x, zmem x (s_wrec s') = fw x (zmem x (s_wrec s))).
+  /\ (forall x, zmem x (s_wrec s') = fw x (zmem x (s_wrec s)))
+  /\ s_tags s' = s_tags s.
 
 Definition keepm (_ : Z) (b : bool) : bool := b.
 Definition addm (fd x : Z) (b : bool) : bool := (x =? fd) || b.
@@ -32,19 +33,27 @@ Proof.
   destruct H as [K C I O]. constructor; auto.
 Qed.
 
-Lemma recs_mark : forall s i fd, recs s (mark s i fd) keepm keepm.
+Lemma coherent_of_sinv : forall s fd, sinv s -> coherent s 0 fd = true.
 Proof.
-  intros s i fd. unfold mark. destruct (coherent s i fd); repeat split.
+  intros s fd Hs. unfold coherent. destruct (v_coh s Hs fd) as [C1 C2]. rewrite C1, C2.
+  now rewrite !eqb_reflx.
 Qed.
+
+Lemma mark_id : forall s fd, sinv s -> mark s 0 fd = s.
+Proof. intros s fd Hs. unfold mark. now rewrite (coherent_of_sinv s fd Hs). Qed.
+
+Lemma recs_mark : forall s fd, sinv s -> recs s (mark s 0 fd) keepm keepm.
+Proof. intros s fd Hs. rewrite (mark_id s fd Hs). repeat split. Qed.
 
 Lemma recs_trans : forall s1 s2 s3 f1 g1 f2 g2,
   recs s1 s2 f1 g1 -> recs s2 s3 f2 g2 ->
   recs s1 s3 (fun x b => f2 x (f1 x b)) (fun x b => g2 x (g1 x b)).
 Proof.
-  intros s1 s2 s3 f1 g1 f2 g2 [A1 [B1 C1]] [A2 [B2 C2]]. repeat split.
+  intros s1 s2 s3 f1 g1 f2 g2 [A1 [B1 [C1 D1]]] [A2 [B2 [C2 D2]]]. repeat split.
   - congruence.
   - intros x. now rewrite B2, B1.
   - intros x. now rewrite C2, C1.
+  - congruence.
 Qed.
 
 Lemma absent_iff : forall s fd, sinv s ->
@@ -74,7 +83,7 @@ Lemma sinv_build : forall s s' tb' fr fw,
   (forall x e, aget x tb' = Some e -> zmem x (s_open s) = true) ->
   sinv s'.
 Proof.
-  intros s s' tb' fr fw K [A [B C]] H1 H2 H3.
+  intros s s' tb' fr fw K [A [B [C D]]] H1 H2 H3.
   assert (T : tbl s' 0 = tb') by (unfold tbl; now rewrite K).
   constructor.
   - now exists tb'.
@@ -97,11 +106,11 @@ Lemma add_read_spec : forall fd tok,
     /\ recs s s' (fun x b => if ok then addm fd x b else b) keepm.
 Proof.
   intros fd tok. unfold add_read_event.
-  pose proof (sinv_mark s 0%nat fd Hs) as Hm. pose proof (recs_mark s 0%nat fd) as Rm.
+  pose proof (sinv_mark s 0%nat fd Hs) as Hm. pose proof (recs_mark s fd Hs) as Rm.
   assert (Km : s_kern (mark s 0 fd) = [tb]) by (unfold mark; destruct (coherent s 0 fd); exact Hk).
   set (m := mark s 0 fd) in *. clearbody m.
   assert (Tm : tbl m 0 = tb) by (unfold tbl; now rewrite Km).
-  destruct Rm as [Ro [Rr Rw]]. unfold keepm in Rr, Rw.
+  destruct Rm as [Ro [Rr [Rw Rt]]]. unfold keepm in Rr, Rw.
   destruct (zmem fd (s_rrec m)) eqn:Er.
   - exists true, m. split; [reflexivity|]. split; [exact Hm|]. repeat split; auto.
     intros x. rewrite Rr. unfold addm. destruct (x =? fd) eqn:E; [|reflexivity].
@@ -160,11 +169,11 @@ Lemma add_write_spec : forall fd tok,
     /\ recs s s' keepm (fun x b => if ok then addm fd x b else b).
 Proof.
   intros fd tok. unfold add_write_event.
-  pose proof (sinv_mark s 0%nat fd Hs) as Hm. pose proof (recs_mark s 0%nat fd) as Rm.
+  pose proof (sinv_mark s 0%nat fd Hs) as Hm. pose proof (recs_mark s fd Hs) as Rm.
   assert (Km : s_kern (mark s 0 fd) = [tb]) by (unfold mark; destruct (coherent s 0 fd); exact Hk).
   set (m := mark s 0 fd) in *. clearbody m.
   assert (Tm : tbl m 0 = tb) by (unfold tbl; now rewrite Km).
-  destruct Rm as [Ro [Rr Rw]]. unfold keepm in Rw, Rr.
+  destruct Rm as [Ro [Rr [Rw Rt]]]. unfold keepm in Rw, Rr.
   destruct (zmem fd (s_wrec m)) eqn:Ew.
   - exists true, m. split; [reflexivity|]. split; [exact Hm|]. repeat split; auto.
     intros x. rewrite Rw. unfold addm. destruct (x =? fd) eqn:E; [|reflexivity].
@@ -257,30 +266,31 @@ Proof.
   destruct (zmem fd (s_rrec m) || zmem fd (s_wrec m)) eqn:Ec.
   - destruct (present_open fd Ec) as [e [G Op]].
     assert (FIN : forall s1 tok, s_kern s1 = s_kern m -> s_open s1 = s_open m -> s_rrec s1 = s_rrec m ->
-              s_wrec s1 = s_wrec m ->
+              s_wrec s1 = s_wrec m -> s_tags s1 = s_tags m ->
               exists s', (let '(ok, s2) := deregister s1 0 fd tok in
                           if ok then (true, with_w (with_r s2 (zrem fd (s_rrec s2)) (s_rtok s2)) (zrem fd (s_wrec s2)) (s_wtok s2))
                           else (false, s2)) = (true, s')
                          /\ sinv s' /\ recs m s' (remm fd) (remm fd)).
-    { intros s1 tok E1 E2 E3 E4. unfold deregister, k_del. unfold tbl at 1. rewrite E1, E2, Km. cbn [nth].
+    { intros s1 tok E1 E2 E3 E4 E5. unfold deregister, k_del. unfold tbl at 1. rewrite E1, E2, Km. cbn [nth].
       rewrite Op. cbn [negb]. rewrite G.
       eexists. split; [reflexivity|].
       match goal with |- sinv ?x /\ _ => set (sf := x) end.
       assert (K' : s_kern sf = [arem fd tb]).
       { subst sf. cbn [s_kern with_w with_r with_tokfd with_tbl]. unfold tbl. rewrite E1, Km. reflexivity. }
       assert (R : recs m sf (remm fd) (remm fd)).
-      { subst sf. repeat split; cbn [s_open s_rrec s_wrec with_w with_r with_tokfd with_tbl].
+      { subst sf. repeat split; cbn [s_open s_rrec s_wrec s_tags with_w with_r with_tokfd with_tbl].
         - exact E2.
         - intros x. rewrite E3. apply zmem_zrem.
-        - intros x. rewrite E4. apply zmem_zrem. }
+        - intros x. rewrite E4. apply zmem_zrem.
+        - exact E5. }
       clearbody sf. split; [|exact R]. exact (after_del_entry fd sf K' R). }
     destruct (aget fd (s_rtok m)) as [t1|]; [|destruct (aget fd (s_wtok m)) as [t2|]].
     + apply FIN; reflexivity.
     + apply FIN; reflexivity.
     + apply FIN; reflexivity.
   - exists m. split; [reflexivity|]. split; [exact Hm|].
-    apply orb_false_iff in Ec as [E1 E2]. repeat split; intros x; unfold remm;
-      (destruct (x =? fd) eqn:E; [apply Z.eqb_eq in E; subst x; cbn; assumption|reflexivity]).
+    apply orb_false_iff in Ec as [E1 E2]. repeat split; try (intros x; unfold remm;
+      (destruct (x =? fd) eqn:E; [apply Z.eqb_eq in E; subst x; cbn; assumption|reflexivity])).
 Qed.
 
 End OnePollerDel.
@@ -295,7 +305,7 @@ Proof.
   assert (Km : s_kern (mark s 0 fd) = [tb]) by now rewrite kern_mark.
   destruct (del_core_spec (mark s 0 fd) tb (sinv_mark s 0%nat fd Hs) Km fd) as [s' [E [I R]]].
   exists s'. split; [exact E|]. split; [exact I|].
-  exact (recs_trans _ _ _ _ _ _ _ (recs_mark s 0%nat fd) R).
+  exact (recs_trans _ _ _ _ _ _ _ (recs_mark s fd Hs) R).
 Qed.
 
 Lemma del_read_spec : forall s tb fd, sinv s -> s_kern s = [tb] ->
@@ -303,7 +313,7 @@ Lemma del_read_spec : forall s tb fd, sinv s -> s_kern s = [tb] ->
 Proof.
   intros s tb fd Hs Hk. unfold del_read_event.
   assert (Km : s_kern (mark s 0 fd) = [tb]) by now rewrite kern_mark.
-  pose proof (sinv_mark s 0%nat fd Hs) as Hm. pose proof (recs_mark s 0%nat fd) as Rm.
+  pose proof (sinv_mark s 0%nat fd Hs) as Hm. pose proof (recs_mark s fd Hs) as Rm.
   set (m := mark s 0 fd) in *. clearbody m.
   assert (Tm : tbl m 0 = tb) by (unfold tbl; now rewrite Km).
   assert (GOAL : exists s', (if zmem fd (s_rrec m)
@@ -334,7 +344,7 @@ Proof.
         * intros x e0. rewrite aget_aset. destruct (x =? fd) eqn:E.
           -- intros _. apply Z.eqb_eq in E; subst x. exact Op.
           -- rewrite <- Tm. apply (v_open m Hm).
-      + destruct (del_core_spec m tb Hm Km fd) as [s' [E [I [R1 [R2 R3]]]]].
+      + destruct (del_core_spec m tb Hm Km fd) as [s' [E [I [R1 [R2 [R3 R4]]]]]].
         exists s'. split; [exact E|]. split; [exact I|]. repeat split; auto.
         intros x. rewrite R3. unfold remm, keepm. destruct (x =? fd) eqn:Ex; [|reflexivity].
         apply Z.eqb_eq in Ex; subst x. now rewrite Ew.
@@ -350,7 +360,7 @@ Lemma del_write_spec : forall s tb fd, sinv s -> s_kern s = [tb] ->
 Proof.
   intros s tb fd Hs Hk. unfold del_write_event.
   assert (Km : s_kern (mark s 0 fd) = [tb]) by now rewrite kern_mark.
-  pose proof (sinv_mark s 0%nat fd Hs) as Hm. pose proof (recs_mark s 0%nat fd) as Rm.
+  pose proof (sinv_mark s 0%nat fd Hs) as Hm. pose proof (recs_mark s fd Hs) as Rm.
   set (m := mark s 0 fd) in *. clearbody m.
   assert (Tm : tbl m 0 = tb) by (unfold tbl; now rewrite Km).
   assert (GOAL : exists s', (if zmem fd (s_wrec m)
@@ -381,7 +391,7 @@ Proof.
         * intros x e0. rewrite aget_aset. destruct (x =? fd) eqn:E.
           -- intros _. apply Z.eqb_eq in E; subst x. exact Op.
           -- rewrite <- Tm. apply (v_open m Hm).
-      + destruct (del_core_spec m tb Hm Km fd) as [s' [E [I [R1 [R2 R3]]]]].
+      + destruct (del_core_spec m tb Hm Km fd) as [s' [E [I [R1 [R2 [R3 R4]]]]]].
         exists s'. split; [exact E|]. split; [exact I|]. repeat split; auto.
         intros x. rewrite R2. unfold remm, keepm. destruct (x =? fd) eqn:Ex; [|reflexivity].
         apply Z.eqb_eq in Ex; subst x. now rewrite Er.
@@ -504,7 +514,7 @@ Lemma rel_apply : forall s s' t fr fw R W,
   forall R' W', (forall x, zmem x R' = fr x (zmem x R)) -> (forall x, zmem x W' = fw x (zmem x W)) ->
   forall t', t_r t' = [R'] -> t_w t' = [W'] -> rel s' t'.
 Proof.
-  intros s s' t fr fw R W E1 E2 M1 M2 [A [B C]] R' W' N1 N2 t' F1 F2.
+  intros s s' t fr fw R W E1 E2 M1 M2 [A [B [C D]]] R' W' N1 N2 t' F1 F2.
   exists R', W'. repeat split; auto.
   - intros x. now rewrite N1, B, M1.
   - intros x. now rewrite N2, C, M2.
@@ -598,7 +608,7 @@ Proof.
     + cbn [t_w]. now rewrite E2.
   - (* Close *)
     destruct (el_del_event_spec _ tb fd Hs Hk) as [s' [E [I Rc]]]. rewrite E. cbn [fst snd y_sel].
-    pose proof Rc as [_ [B C]].
+    pose proof Rc as [_ [B [C _]]].
     assert (F1 : zmem fd (s_rrec s') = false) by (rewrite B; unfold remm; now rewrite Z.eqb_refl).
     assert (F2 : zmem fd (s_wrec s') = false) by (rewrite C; unfold remm; now rewrite Z.eqb_refl).
     split; [now apply sinv_os_close|]. cbn [trk_step].
@@ -713,7 +723,7 @@ Proof.
   destruct (v_kern _ Hs) as [tb Hk].
   cbn [run_from step].
   destruct (el_del_event_spec _ tb fd Hs Hk) as [s' [E [I Rc]]]. rewrite E. cbn [snd y_sel].
-  pose proof Rc as [_ [B C]].
+  pose proof Rc as [_ [B [C _]]].
   assert (F1 : zmem fd (s_rrec s') = false) by (rewrite B; unfold remm; now rewrite Z.eqb_refl).
   assert (F2 : zmem fd (s_wrec s') = false) by (rewrite C; unfold remm; now rewrite Z.eqb_refl).
   pose proof (sinv_os_open _ fd (sinv_os_close s' fd I F1 F2)) as If.
@@ -721,3 +731,37 @@ Proof.
   - apply (absent_iff _ fd If). split; [exact F1|exact F2].
   - cbn [os_open s_open with_open]. rewrite zmem_zadd, Z.eqb_refl. reflexivity.
 Qed.
+
+(** * With one poller the defect tag is never raised *)
+Lemma step_tags1 : forall y t o, yinv y t -> s_tags (y_sel (fst (step y o))) = s_tags (y_sel y).
+Proof.
+  intros y t o [Hs Hr]. destruct (v_kern _ Hs) as [tb Hk].
+  pose proof (loops_one _ tb Hk) as L1.
+  destruct o as [fd|fd|fd|fd|fd|fd|fd|fd|fd|fd|fd|tok r w]; cbn [step].
+  - rewrite L1, Nat.mod_1_r.
+    destruct (add_read_spec _ tb Hs Hk fd thread_token) as [ok [s' [E [I [_ [_ [_ T]]]]]]]. now rewrite E.
+  - rewrite L1, Nat.mod_1_r.
+    destruct (add_write_spec _ tb Hs Hk fd thread_token) as [ok [s' [E [I [_ [_ [_ T]]]]]]]. now rewrite E.
+  - destruct (el_del_read_spec _ tb fd Hs Hk) as [s' [E [I [_ [_ [_ T]]]]]]. now rewrite E.
+  - destruct (el_del_write_spec _ tb fd Hs Hk) as [s' [E [I [_ [_ [_ T]]]]]]. now rewrite E.
+  - destruct (el_del_event_spec _ tb fd Hs Hk) as [s' [E [I [_ [_ [_ T]]]]]]. now rewrite E.
+  - destruct (el_del_event_spec _ tb fd Hs Hk) as [s' [E [I [_ [_ [_ T]]]]]]. now rewrite E.
+  - destruct (el_del_read_spec _ tb fd Hs Hk) as [s' [E [I [_ [_ [_ T]]]]]]. now rewrite E.
+  - destruct (el_del_write_spec _ tb fd Hs Hk) as [s' [E [I [_ [_ [_ T]]]]]]. now rewrite E.
+  - destruct (el_del_event_spec _ tb fd Hs Hk) as [s' [E [I [_ [_ [_ T]]]]]]. now rewrite E.
+  - reflexivity.
+  - reflexivity.
+  - cbn [fst y_sel]. unfold deliver. destruct r, w; reflexivity.
+Qed.
+
+Lemma run_tags1 : forall nfd ops y t, yinv y t ->
+  s_tags (y_sel (snd (run_from nfd y ops))) = s_tags (y_sel y).
+Proof.
+  intros nfd ops. induction ops as [|o ops IH]; intros y t Hy; [reflexivity|].
+  pose proof (step_inv1 y t o Hy) as Hy1. pose proof (step_tags1 y t o Hy) as T1.
+  cbn [run_from]. destruct (step y o) as [y1 res]. cbn [fst snd] in *.
+  specialize (IH y1 _ Hy1). destruct (run_from nfd y1 ops) as [rs yf]. cbn [snd] in *. congruence.
+Qed.
+
+Lemma one_poller_never_tagged : forall nfd ops, tags_C21 1 nfd ops = [].
+Proof. intros nfd ops. unfold tags_C21. now rewrite (run_tags1 nfd ops _ _ (yinv_init nfd)). Qed.
